@@ -8,6 +8,7 @@ import (
 	"crypto/ecdsa"
 	"crypto/ed25519"
 	"encoding/json"
+	"fmt"
 	"math/big"
 	"testing"
 
@@ -220,5 +221,51 @@ func TestC16_JWKRoundTrip(t *testing.T) {
 		st.Sample("key-"+kt.String(), 1, func() interface{} {
 			return map[string]interface{}{"jwk": j, "modification": label, "modified": bad, "leadingZero": lz}
 		})
+	})
+}
+
+// TestC16_OffCurveForgery: a key description whose point is not on the curve must be refused wherever it is read — also by
+// the verification path, and also for a signature that was made for that very point. For a point Q of small order
+// (off-curve points with tiny coordinates behave like that in some curve arithmetic) anyone can write a signature
+// r = (kG).x, s = e/k without a private key: u2*Q vanishes and the check reduces to (e/s)G = kG.
+func TestC16_OffCurveForgery(t *testing.T) {
+	st := statsFor("C16")
+	check(t, "C16", 600, func(t *rapid.T) {
+		kt := rapid.SampledFrom([]keyType{ktSecp256k1, ktP256, ktP384, ktP521}).Draw(t, "kt")
+		curve := curveOf(kt)
+		n := curve.Params().N
+		w := kt.Width()
+		x := big.NewInt(int64(rapid.IntRange(0, 4).Draw(t, "x")))
+		y := big.NewInt(int64(rapid.IntRange(0, 4).Draw(t, "y")))
+		if rapid.IntRange(0, 3).Draw(t, "mirrorY") == 0 && y.Sign() != 0 {
+			y.Sub(curve.Params().P, y)
+		}
+		if curve.IsOnCurve(x, y) {
+			st.Exclude("small point happens to be on the curve")
+			return
+		}
+		j := &jws.JWK{Kty: "EC", Crv: kt.Crv(), X: b64(x.FillBytes(make([]byte, w))), Y: b64(y.FillBytes(make([]byte, w)))}
+		msg := rapid.SliceOfN(rapid.Byte(), 1, 40).Draw(t, "msg")
+		e := new(big.Int).SetBytes(kt.hash(msg))
+		k := big.NewInt(int64(rapid.IntRange(1, 12).Draw(t, "k")))
+		rx, _ := curve.ScalarBaseMult(k.Bytes())
+		r := new(big.Int).Mod(rx, n)
+		s := new(big.Int).Mul(e, new(big.Int).ModInverse(k, n))
+		s.Mod(s, n)
+		if rapid.Bool().Draw(t, "lowS") && s.Cmp(new(big.Int).Rsh(n, 1)) > 0 {
+			s.Sub(n, s)
+		}
+		if r.Sign() == 0 || s.Sign() == 0 {
+			st.Exclude("degenerate r or s")
+			return
+		}
+		sig := append(r.FillBytes(make([]byte, w)), s.FillBytes(make([]byte, w))...)
+		if err := jwsutil.VerifySignature(j, sig, msg); err == nil {
+			t.Fatalf("C16 %s: off-curve point (%v,%v) accepted by VerifySignature, and a signature made without any private key (k=%v) verifies\n jwk=%+v sig=%x msg=%x", kt, x, y, k, j, sig, msg)
+		}
+		if _, err := unmarshalJWK(j); err == nil {
+			t.Fatalf("C16 %s: off-curve point (%v,%v) read as a key", kt, x, y)
+		}
+		st.Case(true, fmt.Sprint("forgery|", kt, x, y, k, msg), "off-curve-forgery-"+kt.String())
 	})
 }
